@@ -12,6 +12,7 @@ import (
 	"github.com/AdguardTeam/AdGuardHome/internal/aghhttp"
 	"github.com/AdguardTeam/golibs/container"
 	"github.com/AdguardTeam/golibs/log"
+	"github.com/AdguardTeam/golibs/netutil"
 	"github.com/AdguardTeam/golibs/stringutil"
 	"github.com/AdguardTeam/urlfilter"
 	"github.com/AdguardTeam/urlfilter/filterlist"
@@ -108,6 +109,12 @@ func newAccessCtx(allowed, blocked, blockedHosts []string) (a *accessManager, er
 			// regular expressions though, since that changes the meaning of
 			// character classes like \D or \S.
 			h = strings.ToLower(h)
+		}
+
+		if name, ok := strings.CutSuffix(h, "."); ok && netutil.ValidateDomainName(name) == nil {
+			// It is a plain name in the fully qualified form.  The names of the
+			// requests are matched without the final dot.
+			h = name
 		}
 
 		stringutil.WriteToBuilder(b, h, "\n")
